@@ -75,15 +75,18 @@ def _check(raw, n_rg_want, n_kv, rows_total):
     return None
 
 
+RG_COUNTS = [0, 1, 2, 14, 15, 16]          # around the short / long list header boundary of the compact protocol
+
+
 def h_common_metadata(n_rg: int, n_kv: int, rows: int, no_rg: bool) -> bool:
     """
-    pre: 0 <= n_rg <= 2 and 0 <= n_kv <= 2 and 0 <= rows <= 3
+    pre: 0 <= n_rg <= 5 and 0 <= n_kv <= 2 and 0 <= rows <= 3
     post: __return__
     """
     # _common_metadata (no_row_groups) and _metadata (with them): PAR1 | footer | len32 | PAR1, the footer follows the
     # IDL (every integer with its declared wire type), carries the schema, the key/values, and the row groups exactly
     # when asked; the caller's metadata object keeps its row groups either way
-    n_rg, n_kv, rows = _pick(n_rg, 0, 2), _pick(n_kv, 0, 2), _pick(rows, 0, 3)
+    n_rg, n_kv, rows = RG_COUNTS[_pick(n_rg, 0, 5)], _pick(n_kv, 0, 2), _pick(rows, 0, 3)
     fmd, raw = _summary(n_rg, n_kv, rows, no_rg)
     if len(fmd.row_groups) != n_rg:
         return False
@@ -98,9 +101,11 @@ def replay_h_common_metadata(n_rg, n_kv, rows, no_rg):
     d = tempfile.mkdtemp(prefix="c02-")
     try:
         dn = os.path.join(d, "ds")
-        df = pd.DataFrame({"a": list(range(4))})
-        fastparquet.write(dn, df, file_scheme="hive", row_group_offsets=[0, 2], custom_metadata={"k0": "v"})
-        for name, want in (("_common_metadata", 0), ("_metadata", 2)):
+        nrg = max(RG_COUNTS[n_rg], 1)
+        df = pd.DataFrame({"a": list(range(2 * nrg))})
+        fastparquet.write(dn, df, file_scheme="hive", row_group_offsets=list(range(0, 2 * nrg, 2)),
+                          custom_metadata={"k0": "v"})
+        for name, want in (("_common_metadata", 0), ("_metadata", nrg)):
             raw = open(os.path.join(dn, name), "rb").read()
             n = struct.unpack("<I", raw[-8:-4])[0]
             foot = raw[4:4 + n]
@@ -112,6 +117,13 @@ def replay_h_common_metadata(n_rg, n_kv, rows, no_rg):
             if len(ref.get("row_groups") or []) != want or ref.get("version") != 1:
                 return True, "%s: version %r, %d row groups" % (name, ref.get("version"),
                                                                len(ref.get("row_groups") or []))
+        try:
+            got = [int(x) for x in fastparquet.ParquetFile(dn).to_pandas()["a"]]
+        except Exception as ex:
+            return True, "hive dataset of %d row groups cannot be opened: %s: %s" % (nrg, type(ex).__name__,
+                                                                                  str(ex)[:80])
+        if got != list(range(2 * nrg)):
+            return True, "hive dataset of %d row groups reads back %d rows" % (nrg, len(got))
         return False, "both summary files follow the IDL"
     finally:
         shutil.rmtree(d, ignore_errors=True)
